@@ -564,6 +564,13 @@ class LambdaExpression(Expression):
                 stream.next()
 
         stream.expect(TokenType.RPAREN)
+
+        if not params:
+            raise LiquidSyntaxError(
+                "expected at least one arrow function parameter",
+                token=stream.current(),
+            )
+
         stream.next()
         stream.expect(TokenType.ARROW)
         stream.next()
